@@ -285,3 +285,15 @@ Fixpoint run_b (sup : bool) (U : list key) (s : server) (h : list (Z * bool * cc
   | [] => []
   | (t, down, c) :: r => let '(s', o) := b_step sup U down s t c in o :: run_b sup U s' r
   end.
+
+(* backend.py is_locked(key, wait, step) in a sequential history (nothing else touches the server during the wait): the plain
+   form is `exists`; the waiting form polls `exists` before each sleep of `step` while the wait lasts - absent: False at once -
+   and decides by one last `exists` when the wait is used up.  Fuel bounds the loop; None = out of fuel. *)
+Definition b_exists (U : list key) (s : server) (now : Z) (k : key) : bool :=
+  match snd (up_step true U s now (CExists k)) with BBool b => b | _ => false end.
+Fixpoint b_is_locked (fuel : nat) (U : list key) (s : server) (now : Z) (k : key) (w st : Z) : option bool :=
+  match fuel with
+  | O => None
+  | S f => if 0 <? w then (if b_exists U s now k then b_is_locked f U s (now + st) k (w - st) st else Some false)
+           else Some (b_exists U s now k)
+  end.
